@@ -6,7 +6,7 @@ import fileio_spec as S
 from props import elf_mut
 
 ID = "C03"
-LEAN_MODULES = ["NakenVerif.Props.C03"]
+LEAN_MODULES = ["NakenVerif.Props.C03", "NakenVerif.Props.C03Elf"]
 THEOREMS = [
     "NakenVerif.C03.hex_roundtrip",
     "NakenVerif.C03.hex_record_roundtrip",
@@ -25,6 +25,13 @@ THEOREMS = [
     "NakenVerif.C03.bin_roundtrip",
     "NakenVerif.C03.filled_frame",
     "NakenVerif.C03.bin_read_write",
+    "NakenVerif.C03.elf_write_decode",
+    "NakenVerif.C03.elf_header_fields",
+    "NakenVerif.C03.elf_load_segment",
+    "NakenVerif.C03.elf_read_write",
+    "NakenVerif.C03.elf_machine_roundtrip",
+    "NakenVerif.FileIO.ElfProofs.decode_write",
+    "NakenVerif.FileIO.ElfReadProofs.read_write",
     "NakenVerif.FileIO.chunks_flat",
     "NakenVerif.FileIO.chunks_good",
     "NakenVerif.FileIO.SrecSpec.parseRecord_recLine",
@@ -42,12 +49,18 @@ MODELLED = ("write_hex.cpp (write_hex, write_hex_line: 16-byte buffer, flush at 
             "the S2->S3 switch above 0xffffff, write_srec_header with the time stamp as a parameter, S9/S8/S7 termination record), "
             "write_bin.cpp, read_bin.cpp, write_wdc.cpp (65536-byte block buffer), read_wdc.cpp, write_uf2.cpp (0xEF block, 256-byte "
             "payload blocks, padding), read_hex.cpp and read_srec.cpp (character-level state machines incl. get_hex error values, "
-            "int wrap-around, int64 start/end)")
-NOT_MODELLED = ("write_elf / write_amiga / write_macho and read_elf / read_uf2 / read_amiga / read_macho / read_ti_txt have no Lean "
+            "int wrap-around, int64 start/end), write_elf.cpp (ELF32/ELF64 by CPU, EI_DATA by Memory::endian, the e_machine / e_flags / "
+            "EI_OSABI / e_type switch, program header + padding to 4096 for images with an entry point, .text = [low, high], "
+            "alignment padding, .ARM.attributes, the string table functions, .shstrtab / .strtab / .symtab / .comment, the "
+            "section header table, the seek-back patch of e_shoff / e_shnum / e_shstrndx; symbols in Symbols::iterate order), "
+            "read_elf.cpp (FileIo get_int16/32/64 incl. EOF = -1 and the uint32_t accumulator of get_int64_be, fseek failing on "
+            "a negative offset, get_string_at_offset with char name[256], the .strtab search, the section loop with the "
+            "EOF-bounded load and symbol loops, low/high arithmetic in 64 bits, the e_machine switch)")
+NOT_MODELLED = ("write_amiga / write_macho and read_uf2 / read_amiga / read_macho / read_ti_txt have no Lean "
                 "model: they are covered by the specification decoders of tools/fileio_spec.py applied to the real writers' output, "
                 "by the real write->read round trip (TI-TXT: Python encoder -> read_ti_txt) and by process-level runs only "
-                "(differential + oracle level, not proof).  ELF section placement and symbol table are checked by the Python ELF32/64 "
-                "decoder only.  Mach-O is generated for the CPU's default byte order only.  The WDC model's 64 KiB run is compared "
+                "(differential + oracle level, not proof).  read_elf: fseek() to an offset above 2^40 (file-system dependent: ext4 "
+                "answers EINVAL above 16 TiB) is outside the model; the mutation stream avoids such files.  Mach-O is generated for the CPU's default byte order only.  The WDC model's 64 KiB run is compared "
                 "with the code in the thorough tier only (the model's buffer append is quadratic).")
 ASSUMPTIONS = ["a cell whose debug marker is DL_EMPTY holds byte 0 (true for everything written through memory_write_inc / "
                "Memory::write; the two-argument AsmContext::memory_write used by asm/f100_l.cpp stores data without a marker, "
